@@ -129,7 +129,7 @@ def run(ctx):
             for v in vals:
                 if isinstance(v, ast.Call):
                     check_pattern(m, v, short + ".<module>")
-    if any(o.rule == 'R3' and not o.ok and o.key.startswith('R3|recursion') for o in ctx.obligations):
+    if ctx.failed('R3', 'R3|recursion'):
         return  # summaries are undefined on a recursive cone; the violation above is the verdict
 
     # ---- R1 / R4: escape sets
